@@ -84,6 +84,58 @@ pub fn write_replay(dir: &str, name: &str, sc: &Scenario, oracle: &str, sig: &st
     path
 }
 
+/// Execute the prelude (earlier generator indices, same process) and then the scenario itself.
+pub fn execute_full(sc: &Scenario, corpus: &mut Corpus, armed: Armed, opts: &ExecOpts) -> exec::Outcome {
+    if let Some(p) = &sc.prelude {
+        let quiet = ExecOpts { log_events: false, cold: false, exe: opts.exe.clone() };
+        let parmed = Armed::for_prop(&p.prop);
+        for j in p.first..p.first + p.count {
+            let psc = gen::generate(&p.prop, seed_for(&p.prop, p.verif_seed, j));
+            let _ = execute(&psc, corpus, parmed, &quiet);
+            if p.recheck_every > 0 && j % p.recheck_every == 0 {
+                let _ = execute(&psc, corpus, parmed, &quiet);
+            }
+        }
+    }
+    execute(sc, corpus, armed, opts)
+}
+
+/// Evaluate a scenario in a fresh child process; returns the oracle ids it violates there.
+pub fn child_violations(exe: &str, sc: &Scenario, twice: bool) -> Option<Vec<String>> {
+    use std::process::{Command, Stdio};
+    let mut cmd = Command::new(exe);
+    cmd.arg("check-stdin");
+    if twice {
+        cmd.arg("--twice");
+    }
+    let mut child = cmd.stdin(Stdio::piped()).stdout(Stdio::piped()).stderr(Stdio::null()).spawn().ok()?;
+    child.stdin.take()?.write_all(sc.text().as_bytes()).ok()?;
+    let o = child.wait_with_output().ok()?;
+    if !o.status.success() {
+        // the child died: that is itself a reproduction of a crash-class violation
+        return Some(vec!["C07.abort".to_string()]);
+    }
+    Some(String::from_utf8_lossy(&o.stdout).lines().filter_map(|l| l.strip_prefix("V ")).map(|l| l.split(' ').next().unwrap_or("").to_string()).collect())
+}
+
+/// Same, but returns (oracle, sig, detail) of the first violation of `oracle` seen in the child.
+pub fn child_detail(exe: &str, sc: &Scenario, oracle: &str) -> Option<(String, String, String)> {
+    use std::process::{Command, Stdio};
+    let mut child = Command::new(exe).arg("check-stdin").stdin(Stdio::piped()).stdout(Stdio::piped()).stderr(Stdio::null()).spawn().ok()?;
+    child.stdin.take()?.write_all(sc.text().as_bytes()).ok()?;
+    let o = child.wait_with_output().ok()?;
+    for l in String::from_utf8_lossy(&o.stdout).lines() {
+        if let Some(r) = l.strip_prefix("V ") {
+            let mut it = r.splitn(3, ' ');
+            let (a, b, c) = (it.next()?, it.next()?, it.next().unwrap_or(""));
+            if a == oracle {
+                return Some((a.to_string(), b.to_string(), c.trim_start_matches(":: ").to_string()));
+            }
+        }
+    }
+    None
+}
+
 #[derive(Default)]
 struct Agg {
     evaluations: u64,
@@ -103,6 +155,7 @@ struct Agg {
     harness_errors: Vec<String>,
     found: Vec<(String, String, String, String)>,
     samples: Vec<String>,
+    state_dependent_tries: u32,
 }
 
 fn write_u64s(path: &str, v: &[u64]) {
@@ -137,7 +190,6 @@ fn cmd_run(args: &[String]) -> i32 {
     let mut agg = Agg::default();
     let t0 = Instant::now();
     let mut max_input: usize = 1 << 20;
-    alloc::set_cap(64 * 1024 * 1024 + 16 * max_input);
     let mut i = start;
     while i < start + count {
         if t0.elapsed().as_secs_f64() > time_limit {
@@ -194,16 +246,16 @@ fn cmd_run(args: &[String]) -> i32 {
         if recheck_every > 0 && i % recheck_every == 0 {
             agg.rechecks += 1;
             let out2 = execute(&sc, &mut corpus, armed, &ExecOpts { log_events: false, cold: false, exe: exe.clone() });
-            if out2.sched_digest != out.sched_digest {
+            if out2.sched_digest != out.sched_digest || out2.result_digest != out.result_digest {
+                // same scenario, same process, different history: the library's behaviour depends on
+                // something the scenario does not contain
                 agg.recheck_mismatch += 1;
-                agg.harness_errors.push(format!("schedule digest differs between two executions of seed {seed} (index {i})"));
-            } else if out2.result_digest != out.result_digest {
-                agg.recheck_mismatch += 1;
-                if armed.c15 {
-                    let path = write_replay(&replay_dir, &format!("{prop}-{seed}-{i}-nondet"), &sc, "C15.result_nondeterminism", "result-digest-differs", "two executions of the same scenario returned different results", &mut corpus, armed);
-                    agg.found.push(("C15.result_nondeterminism".into(), "result-digest-differs".into(), "two executions of the same scenario (same schedule, same faults) returned different results".into(), path));
-                } else {
-                    agg.harness_errors.push(format!("result digest differs between two executions of seed {seed} (index {i}); run the C15 check"));
+                if armed.c15 && agg.found.iter().filter(|f| f.0 == "C15.result_nondeterminism").count() < 2 {
+                    let twice = child_violations(&exe, &sc, true).map_or(false, |os| os.iter().any(|o| o == "C15.result_nondeterminism"));
+                    if twice {
+                        let path = write_replay(&replay_dir, &format!("{prop}-{seed}-{i}-nondet"), &sc, "C15.result_nondeterminism", "history-differs-between-two-executions", "two executions of the same scenario in one process produced different histories", &mut corpus, armed);
+                        agg.found.push(("C15.result_nondeterminism".into(), "history-differs-between-two-executions".into(), "two executions of the same scenario (same schedule decisions, same faults) in one process produced different histories: results depend on state kept from earlier calls".into(), path));
+                    }
                 }
             }
         }
@@ -217,21 +269,66 @@ fn cmd_run(args: &[String]) -> i32 {
                 continue;
             }
             // at most a few replay files per (oracle, sig) per worker
-            let already = agg.found.iter().filter(|f| f.0 == v.oracle && f.1 == v.sig).count();
-            if already >= 2 {
+            let already = agg.found.iter().filter(|f| f.0 == v.oracle && f.1 == v.sig && !f.3.is_empty()).count();
+            let tried = agg.found.iter().filter(|f| f.0 == v.oracle && f.1 == v.sig).count();
+            if already >= 2 || tried >= 12 {
                 agg.found.push((v.oracle.clone(), v.sig.clone(), v.detail.clone(), String::new()));
                 continue;
             }
-            // minimise, then confirm the minimised scenario still fails in a fresh execution
-            let mut sh = shrink::Shrinker { corpus: &mut corpus, armed, opts: ExecOpts { log_events: false, cold, exe: exe.clone() }, oracle: v.oracle.clone(), budget: 2000, deadline: Instant::now() + Duration::from_secs(20), runs: 0 };
-            let small = sh.shrink(&sc);
-            let chk = execute(&small, &mut corpus, armed, &ExecOpts { log_events: false, cold, exe: exe.clone() });
-            let (fin, det) = match chk.violations.iter().find(|x| x.oracle == v.oracle) {
-                Some(x) => (small, x.clone()),
-                None => (sc.clone(), v.clone()),
-            };
-            let path = write_replay(&replay_dir, &format!("{prop}-{seed}-{i}-{}", v.oracle.replace('.', "_")), &fin, &det.oracle, &det.sig, &det.detail, &mut corpus, armed);
-            agg.found.push((det.oracle.clone(), det.sig.clone(), det.detail.clone(), path));
+            let reproduces = |cand: &Scenario| child_violations(&exe, cand, false).map_or(false, |os| os.iter().any(|o| *o == v.oracle));
+            let mut fin: Option<Scenario> = None;
+            if reproduces(&sc) {
+                // minimise in-process first (fast); fall back to fresh-process evaluation of every candidate
+                let mut sh = shrink::Shrinker { corpus: &mut corpus, armed, opts: ExecOpts { log_events: false, cold, exe: exe.clone() }, oracle: v.oracle.clone(), budget: 2000, deadline: Instant::now() + Duration::from_secs(20), runs: 0, child_exe: None };
+                let small = sh.shrink(&sc);
+                if reproduces(&small) {
+                    fin = Some(small);
+                } else {
+                    let mut sh = shrink::Shrinker { corpus: &mut corpus, armed, opts: ExecOpts { log_events: false, cold, exe: exe.clone() }, oracle: v.oracle.clone(), budget: 400, deadline: Instant::now() + Duration::from_secs(20), runs: 0, child_exe: Some(exe.clone()) };
+                    let small = sh.shrink(&sc);
+                    fin = Some(if reproduces(&small) { small } else { sc.clone() });
+                }
+            } else if agg.found.iter().filter(|f| f.0 == v.oracle && !f.3.is_empty()).count() == 0 && agg.state_dependent_tries < 3 {
+                // depends on what earlier scenarios of this worker left behind: replay them as a prelude,
+                // then bisect the prelude down
+                agg.state_dependent_tries += 1;
+                let mut with = sc.clone();
+                with.prelude = Some(scn::Prelude { prop: prop.clone(), verif_seed, first: start, count: i - start, recheck_every });
+                if reproduces(&with) {
+                    let mut first = start;
+                    let mut count = i - start;
+                    // drop leading halves while it still reproduces
+                    let mut step = count / 2;
+                    let t_end = Instant::now() + Duration::from_secs(30);
+                    while step >= 1 && Instant::now() < t_end {
+                        let mut cand = sc.clone();
+                        cand.prelude = Some(scn::Prelude { prop: prop.clone(), verif_seed, first: first + step, count: count - step, recheck_every });
+                        if count > step && reproduces(&cand) {
+                            first += step;
+                            count -= step;
+                            step = step.min(count / 2).max(if count > 1 { 1 } else { 0 });
+                            if count <= 1 {
+                                break;
+                            }
+                        } else {
+                            step /= 2;
+                        }
+                    }
+                    with.prelude = Some(scn::Prelude { prop: prop.clone(), verif_seed, first, count, recheck_every });
+                    fin = Some(with);
+                }
+            }
+            match fin {
+                Some(fin) => {
+                    let det = match child_detail(&exe, &fin, &v.oracle) {
+                        Some((o, s, d)) => world::Violation { oracle: o, sig: s, detail: d },
+                        None => v.clone(),
+                    };
+                    let path = write_replay(&replay_dir, &format!("{prop}-{seed}-{i}-{}", v.oracle.replace('.', "_")), &fin, &det.oracle, &det.sig, &det.detail, &mut corpus, armed);
+                    agg.found.push((det.oracle.clone(), det.sig.clone(), det.detail.clone(), path));
+                }
+                None => agg.found.push((v.oracle.clone(), v.sig.clone(), v.detail.clone(), String::new())),
+            }
         }
         i += 1;
     }
@@ -281,7 +378,14 @@ fn cmd_replay(args: &[String]) -> i32 {
     let mut corpus = Corpus { root: corpus_root(), ..Default::default() };
     let exe = std::env::current_exe().map(|p| p.to_string_lossy().into_owned()).unwrap_or_default();
     let cold = sc.prop == "C15";
-    let out = execute(&sc, &mut corpus, armed, &ExecOpts { log_events: true, cold, exe });
+    let out = execute_full(&sc, &mut corpus, armed, &ExecOpts { log_events: true, cold, exe: exe.clone() });
+    let mut extra: Vec<world::Violation> = Vec::new();
+    if want_oracle.as_deref() == Some("C15.result_nondeterminism") {
+        let out2 = execute(&sc, &mut corpus, armed, &ExecOpts { log_events: false, cold: false, exe });
+        if out2.sched_digest != out.sched_digest || out2.result_digest != out.result_digest {
+            extra.push(world::Violation { oracle: "C15.result_nondeterminism".into(), sig: "history-differs-between-two-executions".into(), detail: "second execution of the same scenario in this process produced a different history".into() });
+        }
+    }
     if !quiet {
         for e in &out.events {
             println!("{e}");
@@ -293,7 +397,7 @@ fn cmd_replay(args: &[String]) -> i32 {
         println!("recorded result_digest {w}: {}", if *w == format!("{:016x}", out.result_digest) { "same history" } else { "DIFFERENT history" });
     }
     let mut hit = false;
-    for v in &out.violations {
+    for v in out.violations.iter().chain(extra.iter()) {
         println!("VIOLATED oracle={} sig={} :: {}", v.oracle, v.sig, v.detail);
         if want_oracle.as_deref().map_or(true, |w| w == v.oracle) {
             hit = true;
@@ -346,6 +450,8 @@ fn main() {
         std::process::exit(2);
     }
     exec::install_panic_hook();
+    // a single request above 64 MiB + 16 x (largest input, < 1 MiB) is refused => recorded abort
+    alloc::set_cap(64 * 1024 * 1024 + 16 * (1 << 20));
     tz::verif_hooks::set_clock(world::sim_clock);
     for k in ["TZ", "TZDIR", "LANG", "LC_ALL", "LC_TIME"] {
         std::env::remove_var(k);
@@ -378,6 +484,32 @@ fn main() {
                     let mut corpus = Corpus { root: corpus_root(), ..Default::default() };
                     let out = execute(&sc, &mut corpus, Armed::default(), &ExecOpts::default());
                     let _ = std::io::stdout().write_all(out.last_canon.as_bytes());
+                    0
+                }
+                Err(e) => {
+                    eprintln!("{e}");
+                    2
+                }
+            }
+        }
+        "check-stdin" => {
+            let mut text = String::new();
+            let _ = std::io::stdin().read_to_string(&mut text);
+            match Scenario::parse(&text) {
+                Ok(sc) => {
+                    let mut corpus = Corpus { root: corpus_root(), ..Default::default() };
+                    let armed = Armed::for_prop(&sc.prop);
+                    let exe = std::env::current_exe().map(|p| p.to_string_lossy().into_owned()).unwrap_or_default();
+                    let out = execute_full(&sc, &mut corpus, armed, &ExecOpts { log_events: false, cold: sc.prop == "C15" && sc.prelude.is_none(), exe: exe.clone() });
+                    for v in &out.violations {
+                        println!("V {} {} :: {}", v.oracle, v.sig, v.detail.replace('\n', " "));
+                    }
+                    if args.iter().any(|a| a == "--twice") {
+                        let out2 = execute(&sc, &mut corpus, armed, &ExecOpts { log_events: false, cold: false, exe });
+                        if out2.sched_digest != out.sched_digest || out2.result_digest != out.result_digest {
+                            println!("V C15.result_nondeterminism history-differs-between-two-executions");
+                        }
+                    }
                     0
                 }
                 Err(e) => {
